@@ -63,6 +63,20 @@ Fixpoint pack (bs : list bool) (words : nat) : list N :=
 
 Definition words_for (n : nat) : nat := (n + 63) / 64.
 
+(* the same loop transcribed literally: for i := 0; i < words*64; i++ { if
+   i < len(batch) && bit(i) == 1 { acc |= 1 << (i%64) }; if (i+1)%64 == 0
+   { word[i/64] = acc; acc = 0 } } — position ofs of word w is set iff
+   i = 64*w+ofs is a gate of the batch (i < len) and its share bit is 1; the
+   last word is filled up to len - 64*(words-1) gates, which is 64 (not 0)
+   when len is a multiple of 64.  GmwProof.pack_go_eq: pack_go = pack. *)
+Definition pack_go (bs : list bool) (words : nat) : list N :=
+  map (fun w => bits_to_N (map (fun ofs => let i := 64 * w + ofs in
+                                           (i <? length bs) && nth i bs false) (seq 0 64)))
+      (seq 0 words).
+
+(* bit(andZ, i) for the n gates of a batch: what "Set result wires" reads *)
+Definition unpack (n : nat) (bv : list N) : list bool := map (bit bv) (seq 0 n).
+
 (* ------------------------------------------------------------------ *)
 (* gmw/triples.go : Triples, TriplePool                                *)
 
